@@ -30,7 +30,7 @@ out=$work/out.txt
 s=$(date +%s.%N)
 case "$prop" in
   C01|C10) pkg="./compress/flate/internal/huffman ./compress/flate/internal/deflate"; run='TestBounded(HuffmanGenerate|HeaderWriter|LZ77)$'; group=writer ;;
-  C04)     pkg=./compress/flate; run='TestBoundedSplitDelivery$'; group=split ;;
+  C04)     pkg=./compress/flate; run='TestBounded(SplitDelivery|TruncatedDelivery)$'; group=split ;;
   *)       pkg=./compress/flate; run='TestBounded(DistTable|ClcTable|HeaderTables|ByteCopy|SplitDelivery)$'; group=tables ;;
 esac
 (cd $repo && go test -overlay $work/overlay.json -vet=off -count=1 -timeout $to -run "$run" -v $pkg) > $out 2>&1
@@ -73,7 +73,7 @@ prop,tier,explored,nfail,wall=sys.argv[1:6]
 p='/verif/evidence/%s.json'%prop
 try: ev=json.load(open(p))
 except Exception: ev={"property_id":prop,"tier":tier,"seed":0,"level":"other","coverage":{},"wall_s":0.0}
-ev.setdefault("coverage",{})["bounded_stand_in"]={"label":"bounded (not proof)","group":os.environ.get("VERIF_BOUNDED_GROUP",""),"what":"(group writer: the match finders behind generate - lz77 and, in the default configuration, the assembly matchers - driven like compressBlock drives them with token limits 4..64 and 32767: appended tokens decode to the bytes consumed, distances within the window, every histogram counter moves by the number of appended tokens with that symbol; huffman.Generate + GenerateCode2 on random histograms of 19/30/286 symbols - assumed postcondition, complete prefix-free codes; dynamicHeader.writeTo on random code length vectors - the bits written parse back, with an independent RFC 1951 parser, to the same lengths) (group tables:) genForDists+setCodes on distance code length vectors, GenerateForHeader+setCodes on code length code vectors, and the whole dynamic-header table construction (setupDynamicHeader) on random complete codes in the three multi-symbol modes; real tables compared with canonical decoding and with the contract predicates; variants with incomplete codes parsed over an earlier block's tables against zeroed tables; headers with run-length coded lengths (groups tables and split:) random valid dynamic blocks delivered whole, in two pieces cut at every byte, in three pieces and byte by byte must decode to the standard library's output (bound stated in /verif/bounded/*_test.go)",
+ev.setdefault("coverage",{})["bounded_stand_in"]={"label":"bounded (not proof)","group":os.environ.get("VERIF_BOUNDED_GROUP",""),"what":"(group writer: the match finders behind generate - lz77 and, in the default configuration, the assembly matchers - driven like compressBlock drives them with token limits 4..64 and 32767: appended tokens decode to the bytes consumed, distances within the window, every histogram counter moves by the number of appended tokens with that symbol; huffman.Generate + GenerateCode2 on random histograms of 19/30/286 symbols - assumed postcondition, complete prefix-free codes; dynamicHeader.writeTo on random code length vectors - the bits written parse back, with an independent RFC 1951 parser, to the same lengths) (group tables:) genForDists+setCodes on distance code length vectors, GenerateForHeader+setCodes on code length code vectors, and the whole dynamic-header table construction (setupDynamicHeader) on random complete codes in the three multi-symbol modes; real tables compared with canonical decoding and with the contract predicates; variants with incomplete codes parsed over an earlier block's tables against zeroed tables; headers with run-length coded lengths (groups tables and split:) random valid dynamic blocks delivered whole, in two pieces cut at every byte, in three pieces and byte by byte must decode to the standard library's output; (group split also:) truncated final dynamic blocks delivered whole and byte by byte - unexpected EOF twice, both outputs prefixes of the data, equal length (the last is a recorded finding) (bound stated in /verif/bounded/*_test.go)",
  "explored_inputs":int(explored),"failures":int(nfail),"wall_s":float(wall),
  "bound":{"complete_codes_max_symbols":int(os.environ.get("VERIF_BOUNDED_COMPLETE_SYMS","30")),"incomplete_codes_max_symbols":int(os.environ.get("VERIF_BOUNDED_INCOMPLETE_SYMS","4")),"random_vectors":int(os.environ.get("VERIF_BOUNDED_RANDOM","100000")),"random_headers":int(os.environ.get("VERIF_BOUNDED_HEADERS","10000")),"patterns_per_header":int(os.environ.get("VERIF_BOUNDED_PATTERNS","400")),"histograms":int(os.environ.get("VERIF_BOUNDED_HISTOGRAMS","60000")),"written_headers":int(os.environ.get("VERIF_BOUNDED_WHEADERS","8000")),"split_delivery_blocks":int(os.environ.get("VERIF_BOUNDED_SPLIT_BLOCKS","1500")),"match_finder_inputs":int(os.environ.get("VERIF_BOUNDED_LZ77","1500"))}}
 ev["wall_s"]=round(float(ev.get("wall_s",0))+float(wall),3)
